@@ -41,7 +41,7 @@ def leaf_render(kind: str, v):
         if s:
             out += f":{s:02d}"
         return out
-    if kind == "PurePosixPath":
+    if kind in ("PurePosixPath", "Path"):
         return str(v)
     if kind == "Pattern":
         return v.pattern
@@ -68,6 +68,8 @@ def leaf_parse(kind: str, d):
             return fractions.Fraction(d)
         if kind == "PurePosixPath":
             return pathlib.PurePosixPath(d)
+        if kind == "Path":
+            return pathlib.Path(d)
         if kind == "Pattern":
             return re.compile(d)
         return getattr(ipaddress, kind)(d)
@@ -163,7 +165,7 @@ def ref_encode(t: T, v, fam: Family, ns):
         if tys is None:
             raise RefError("tuple too short")
         return [ref_encode(a, x, fam, ns) for a, x in zip(tys, v)]
-    if k in ("dict", "mapping", "ordereddict"):
+    if k in ("dict", "mapping", "ordereddict", "mappingproxy"):
         return {ref_encode(t.args[0], a, fam, ns): ref_encode(t.args[1], b, fam, ns) for a, b in v.items()}
     if k == "counter":
         return {ref_encode(t.args[0], a, fam, ns): b for a, b in v.items()}
@@ -296,7 +298,7 @@ def ref_decode(t: T, d, fam: Family, ns):
             m = [ref_decode(a, x, fam, ns) for a, x in zip(mid, middle)]
         tail = [ref_decode(a, x, fam, ns) for a, x in zip(suf, d[len(d) - len(suf):])] if suf else []
         return tuple(head + m + tail)
-    if k in ("dict", "mapping", "ordereddict", "defaultdict", "counter"):
+    if k in ("dict", "mapping", "ordereddict", "defaultdict", "counter", "mappingproxy"):
         try:
             items = list(d.items())
         except Exception:
@@ -315,6 +317,9 @@ def ref_decode(t: T, d, fam: Family, ns):
             raise RefError("unhashable key") from None
         if k == "defaultdict":
             return collections.defaultdict(None, out)
+        if k == "mappingproxy":
+            import types as _types
+            return _types.MappingProxyType(out)
         return collections.OrderedDict(out) if k == "ordereddict" else out
     if k == "chainmap":
         maps = []
@@ -368,10 +373,17 @@ def ref_decode(t: T, d, fam: Family, ns):
                 continue
             try:
                 x = d[i]
+            except IndexError:
+                if f.default is not NODEFAULT:
+                    break            # documented: missing trailing items take the NamedTuple defaults
+                raise RefError(f"index {i}: IndexError") from None
             except Exception as e:
                 raise RefError(f"index {i}: {type(e).__name__}") from None
             out.append(ref_decode(f.ty, x, fam, ns))
-        return ns[t.name](*out)
+        try:
+            return ns[t.name](*out)
+        except TypeError:
+            raise RefError("missing named tuple items") from None
     if k == "td":
         spec = fam.get(t.name)
         if not isinstance(d, dict):
@@ -403,6 +415,8 @@ def conforms(t: T, r, fam: Family, ns) -> bool:
         cls = getattr(sys.modules[mod], name)
         if t.name == "PurePosixPath":
             return type(r) is pathlib.PurePosixPath
+        if t.name == "Path":
+            return type(r) is type(pathlib.Path())
         return type(r) is cls
     if k == "enum":
         return type(r) is ns[t.name]
@@ -425,6 +439,9 @@ def conforms(t: T, r, fam: Family, ns) -> bool:
         return tys is not None and all(conforms(a, x, fam, ns) for a, x in zip(tys, r))
     if k in ("dict", "mapping"):
         return type(r) is dict and all(conforms(t.args[0], a, fam, ns) and conforms(t.args[1], b, fam, ns) for a, b in r.items())
+    if k == "mappingproxy":
+        import types as _types
+        return type(r) is _types.MappingProxyType and all(conforms(t.args[0], a, fam, ns) and conforms(t.args[1], b, fam, ns) for a, b in r.items())
     if k == "counter":
         return type(r) is collections.Counter and all(conforms(t.args[0], a, fam, ns) and type(b) is int for a, b in r.items())
     if k == "defaultdict":
